@@ -19,8 +19,17 @@ sys.path.insert(0, os.path.dirname(os.path.abspath(__file__)))
 os.environ.setdefault("PYTHONHASHSEED", "0")
 os.environ["PYTHONDONTWRITEBYTECODE"] = "1"
 sys.dont_write_bytecode = True
-# the implementation under test is always /repo's working tree
-sys.path.insert(0, "/repo/src")
+# the implementation under test is /repo's working tree; VERIF_REPO_SRC (testing of seeded
+# changes in scratch worktrees only) redirects to another source tree and moves all outputs
+# (work directory, evidence, replays) below /verif/_work/alt-<tag>/ so that nothing registered
+# in MANIFEST.json is touched
+REPO_SRC = os.environ.get("VERIF_REPO_SRC", "/repo/src")
+ALT = None
+if REPO_SRC != "/repo/src":
+    import hashlib as _h
+    ALT = "alt-" + _h.sha1(REPO_SRC.encode()).hexdigest()[:8]
+sys.path.insert(0, REPO_SRC)
+os.environ["VERIF_REPO_SRC"] = REPO_SRC
 
 from lib import coqrun, findings  # noqa: E402
 
@@ -37,7 +46,8 @@ class Ctx:
         self.tier = tier
         self.seed = seed
         self.rng = random.Random(seed * 1000003 + int(prop_id[1:]))
-        self.workdir = os.path.join(VERIF, "_work", prop_id)
+        self.outdir = VERIF if ALT is None else os.path.join(VERIF, "_work", ALT)
+        self.workdir = os.path.join(VERIF, "_work", prop_id) if ALT is None else os.path.join(VERIF, "_work", ALT, "work", prop_id)
         self.t0 = time.time()
         self.failures = []      # dict(signature, what, replay, case)
         self.disagreements = []  # dict(name, case, detail)
@@ -122,7 +132,7 @@ class Ctx:
                 violations.append(f)
         # disagreements not explained by a failing input -> broken correspondence
         unexplained = [d for d in self.disagreements if repr(d["case"]) not in explained_cases]
-        os.makedirs(os.path.join(VERIF, "replays"), exist_ok=True)
+        os.makedirs(os.path.join(self.outdir, "replays"), exist_ok=True)
         printed = set()
         for sig, f in seen_known.items():
             print("KNOWN-FINDING: property=%s %s [%s]" % (prop, self.known[sig].get("what", f["what"]), sig))
@@ -134,7 +144,7 @@ class Ctx:
                     "replay": f["replay"], "seed": self.seed, "tier": self.tier,
                     "rerun": "cd /verif && VERIF_SEED=%d ./check %s --tier %s" % (self.seed, prop, self.tier)}
             h = hashlib.sha1(json.dumps(body, sort_keys=True, default=str).encode()).hexdigest()[:10]
-            path = os.path.join(VERIF, "replays", "%s-%s.json" % (prop, h))
+            path = os.path.join(self.outdir, "replays", "%s-%s.json" % (prop, h))
             with open(path, "w") as fh:
                 json.dump(body, fh, indent=1, default=str)
             print("VIOLATION property=%s replay=%s" % (prop, path))
@@ -150,7 +160,7 @@ class Ctx:
                     "note": "a proof obligation or the model/implementation correspondence is broken; "
                             "the search found no input on which the property statement itself fails"}
             h = hashlib.sha1(json.dumps(body, sort_keys=True, default=str).encode()).hexdigest()[:10]
-            path = os.path.join(VERIF, "replays", "%s-%s.json" % (prop, h))
+            path = os.path.join(self.outdir, "replays", "%s-%s.json" % (prop, h))
             with open(path, "w") as fh:
                 json.dump(body, fh, indent=1, default=str)
             print("VIOLATION property=%s replay=%s no-failing-input-found" % (prop, path))
@@ -182,8 +192,8 @@ class Ctx:
             "wall_s": round(time.time() - self.t0, 2),
             "violations": len(violations) + (1 if (nofail and not violations) else 0),
         }
-        os.makedirs(os.path.join(VERIF, "evidence"), exist_ok=True)
-        with open(os.path.join(VERIF, "evidence", prop + ".json"), "w") as fh:
+        os.makedirs(os.path.join(self.outdir, "evidence"), exist_ok=True)
+        with open(os.path.join(self.outdir, "evidence", prop + ".json"), "w") as fh:
             json.dump(ev, fh, indent=1, default=str)
         self.log("done: evaluations=%d distinct_nontrivial=%d obligations=%d/%d exit=%d"
                  % (self.evaluations, len(self.nontrivial), n_ok, n_obl, exit_code))
